@@ -5,7 +5,7 @@ open Sexp
 
 type piped =
   | Rejected of string * string list        (* stage, messages *)
-  | Accepted of { parsed : term; elab : term; ty : term; ev : [ `Value of term | `Stuck of term | `NoEval ]; ctx_ok : bool; open_holes : int; open_holes_eval : int; raw : Sexp.t; parsed_sx : Sexp.t }
+  | Accepted of { parsed : term; elab : term; ty : term; ev : [ `Value of term | `Stuck of term | `NoEval ]; ctx_ok : bool; open_holes : int; open_holes_eval : int; local_holes : int; raw : Sexp.t; parsed_sx : Sexp.t }
   | Other of string
 
 let parse_piped (res : Sexp.t) : piped =
@@ -19,8 +19,15 @@ let parse_piped (res : Sexp.t) : piped =
         | _ -> `NoEval) in
     Accepted { parsed = term_of_sexp p; elab = term_of_sexp e; ty = term_of_sexp t; ev; ctx_ok = (atom c = "1");
                open_holes = (match hk with L (A "hooks" :: oh :: _) -> int oh | _ -> -1);
-               open_holes_eval = (match hk2 with L (A "hooks" :: oh :: _) -> int oh | _ -> -1); raw; parsed_sx = p }
+               open_holes_eval = (match hk2 with L (A "hooks" :: oh :: _) -> int oh | _ -> -1);
+               local_holes = (match hk with L [ A "hooks"; _; _; _; _; lh ] -> int lh | _ -> 0); raw; parsed_sx = p }
   | _ -> Other (Sexp.to_string res)
+
+(* attribution of a failure of an accepted program to a recorded finding by the call site it went through while
+   being checked: `open` replaced an unsolved hole by a fresh cell (D9), or `signed_shift` left an unsolved hole
+   below the cutoff as it was, so that the shared cell is read at a second home depth (D19) *)
+let hole_sig ~(opened : int) ~(local : int) : string =
+  if opened > 0 then " sig=D9-hole-copied-by-open" else if local > 0 then " sig=D19-local-hole-rehomed-by-shift" else ""
 
 let fuel_steps = nat_of_int 20000
 let fuel_env = nat_of_int 3000
